@@ -28,6 +28,7 @@ Step(e) ==
       [] e.ev = "post"    -> A!APost(a, e.stamps)
       [] e.ev = "reap"    -> A!AReap(a, e.ret)
       [] e.ev = "read"    -> A!ARead(a, e.val)
+      [] e.ev = "wakeup"  -> A!AWakeup(a, e.flags, e.ret)
       [] OTHER            -> a
 
 Init == /\ i = 1 /\ a = A!AbsInit(1, 1) /\ run = 0 /\ nbad = 0
